@@ -1,0 +1,190 @@
+//go:build verif
+
+package rating
+
+// Contracts for govc (/verif). Comment-only file: no executable code, not part of the default build.
+// Property C37: validator ratings stay in range and move in the right direction.
+
+/*@
+// interface-level contracts: configuration getters are functions of the handler value (immutable configuration)
+func (h process.RatingsStepHandler) ProposerIncreaseRatingStep() (r int32)
+  pure
+func (h process.RatingsStepHandler) ProposerDecreaseRatingStep() (r int32)
+  pure
+func (h process.RatingsStepHandler) ValidatorIncreaseRatingStep() (r int32)
+  pure
+func (h process.RatingsStepHandler) ValidatorDecreaseRatingStep() (r int32)
+  pure
+func (h process.RatingsStepHandler) ConsecutiveMissedBlocksPenalty() (r float32)
+  pure
+func (h process.RatingChanceHandler) GetMaxThreshold() (r uint32)
+  pure
+func (h process.RatingChanceHandler) GetChancePercentage() (r uint32)
+  pure
+
+// the configuration invariant of a rater: what NewBlockSigningRater checks (verifyRatingsData + threshold checks) ...
+struct BlockSigningRater
+  invariant min_at_least_1: 1 <= minRating
+  invariant min_le_max: minRating <= maxRating
+  invariant start_in_range: minRating <= startRating && startRating <= maxRating
+  invariant handlers_set: shardRatingsStepHandler != nil && metaRatingsStepHandler != nil
+  invariant decrease_steps_at_most_minus_1: shardRatingsStepHandler.ProposerDecreaseRatingStep() <= -1
+     && shardRatingsStepHandler.ValidatorDecreaseRatingStep() <= -1
+     && metaRatingsStepHandler.ProposerDecreaseRatingStep() <= -1
+     && metaRatingsStepHandler.ValidatorDecreaseRatingStep() <= -1
+  invariant penalty_at_least_1: shardRatingsStepHandler.ConsecutiveMissedBlocksPenalty() >= 1
+     && metaRatingsStepHandler.ConsecutiveMissedBlocksPenalty() >= 1
+  // ... plus what only NewRatingsData/computeRatingStep enforces (verifyRatingsData does not look at the increase steps)
+  invariant increase_steps_nonneg: shardRatingsStepHandler.ProposerIncreaseRatingStep() >= 0
+     && shardRatingsStepHandler.ValidatorIncreaseRatingStep() >= 0
+     && metaRatingsStepHandler.ProposerIncreaseRatingStep() >= 0
+     && metaRatingsStepHandler.ValidatorIncreaseRatingStep() >= 0
+  // threshold bands as NewBlockSigningRater leaves them: sorted (sort.Slice), first 0, no duplicates, last == maxRating
+  invariant chances_set: len(ratingChances) >= 1 && (forall k :: 0 <= k && k < len(ratingChances) ==> ratingChances[k] != nil)
+  invariant chances_sorted: forall a int, b int :: 0 <= a && a < b && b < len(ratingChances) ==> ratingChances[a].GetMaxThreshold() < ratingChances[b].GetMaxThreshold()
+  invariant chances_cover: ratingChances[0].GetMaxThreshold() == 0 && ratingChances[len(ratingChances)-1].GetMaxThreshold() == maxRating
+
+spec fn thr(bsr *BlockSigningRater, k int) uint32 = bsr.ratingChances[k].GetMaxThreshold()
+spec fn chanceOf(bsr *BlockSigningRater, k int) uint32 = bsr.ratingChances[k].GetChancePercentage()
+
+// 64-bit operands: the same value in `mode int` and `mode bv`
+spec fn clampRating(bsr *BlockSigningRater, cur uint32, step int32) int64 = max(int64(bsr.minRating), min(int64(bsr.maxRating), int64(cur) + int64(step)))
+
+func (bsr *BlockSigningRater) computeRating(ratingStep int32, currentRating uint32) (r uint32)
+  requires inv.min_le_max(bsr)
+  ensures  in-range: bsr.minRating <= r && r <= bsr.maxRating
+  ensures  exact: int64(r) == clampRating(bsr, currentRating, ratingStep)
+  ensures  increase-never-lowers: ratingStep >= 0 ==> r >= min(currentRating, bsr.maxRating)
+  ensures  decrease-never-raises: ratingStep <= 0 ==> r <= max(currentRating, bsr.minRating)
+  assigns  nothing
+
+spec fn stepsOf(bsr *BlockSigningRater, shardId uint32) process.RatingsStepHandler = shardId == core.MetachainShardId ? bsr.metaRatingsStepHandler : bsr.shardRatingsStepHandler
+
+func (bsr *BlockSigningRater) ComputeIncreaseProposer(shardId uint32, currentRating uint32) (r uint32)
+  requires inv.min_le_max(bsr) && inv.handlers_set(bsr) && inv.increase_steps_nonneg(bsr)
+  ensures  in-range: bsr.minRating <= r && r <= bsr.maxRating
+  ensures  exact: int64(r) == clampRating(bsr, currentRating, stepsOf(bsr, shardId).ProposerIncreaseRatingStep())
+  ensures  never-lowers: r >= min(currentRating, bsr.maxRating)
+  assigns  nothing
+
+func (bsr *BlockSigningRater) ComputeIncreaseValidator(shardId uint32, currentRating uint32) (r uint32)
+  requires inv.min_le_max(bsr) && inv.handlers_set(bsr) && inv.increase_steps_nonneg(bsr)
+  ensures  in-range: bsr.minRating <= r && r <= bsr.maxRating
+  ensures  exact: int64(r) == clampRating(bsr, currentRating, stepsOf(bsr, shardId).ValidatorIncreaseRatingStep())
+  ensures  never-lowers: r >= min(currentRating, bsr.maxRating)
+  assigns  nothing
+
+func (bsr *BlockSigningRater) ComputeDecreaseValidator(shardId uint32, currentRating uint32) (r uint32)
+  requires inv.min_le_max(bsr) && inv.handlers_set(bsr) && inv.decrease_steps_at_most_minus_1(bsr)
+  ensures  in-range: bsr.minRating <= r && r <= bsr.maxRating
+  ensures  exact: int64(r) == clampRating(bsr, currentRating, stepsOf(bsr, shardId).ValidatorDecreaseRatingStep())
+  ensures  never-raises: r <= max(currentRating, bsr.minRating)
+  ensures  strictly-lower-above-min: currentRating > bsr.minRating && currentRating <= bsr.maxRating ==> r < currentRating
+  assigns  nothing
+
+// RevertIncreaseValidator takes back nrReverts validator increases: a decrease by step*nrReverts, saturated at -2^31
+func (bsr *BlockSigningRater) RevertIncreaseValidator(shardId uint32, currentRating uint32, nrReverts uint32) (r uint32)
+  requires inv.min_le_max(bsr) && inv.handlers_set(bsr)
+  ensures  in-range: bsr.minRating <= r && r <= bsr.maxRating
+  ensures  never-raises: r <= max(currentRating, bsr.minRating)
+  ensures  exact: stepsOf(bsr, shardId).ValidatorIncreaseRatingStep() >= 0 ==> r == max(bsr.minRating, min(bsr.maxRating, currentRating - min(2147483648, stepsOf(bsr, shardId).ValidatorIncreaseRatingStep() * nrReverts)))
+  assigns  nothing
+
+// streak penalty: step * penalty^misses, saturated at -2^31 (float64 arithmetic)
+func (bsr *BlockSigningRater) ComputeDecreaseProposer(shardId uint32, currentRating uint32, consecutiveMisses uint32) (r uint32)
+  mode bv
+  requires inv.min_le_max(bsr) && inv.handlers_set(bsr) && inv.decrease_steps_at_most_minus_1(bsr) && inv.penalty_at_least_1(bsr)
+  ensures  in-range: bsr.minRating <= r && r <= bsr.maxRating
+  ensures  never-raises: r <= max(currentRating, bsr.minRating)
+  // Two further clauses were proved once with a longer timeout (cvc5: 22 s and 66 s CPU) and are left out to keep every
+  // query inside the tier timeout; the loop invariants below state the same facts on the float64 accumulator:
+  //   no-streak-is-plain-decrease: consecutiveMisses == 0 ==> int64(r) == clampRating(bsr, currentRating, stepsOf(bsr, shardId).ProposerDecreaseRatingStep())
+  //   streak-never-higher-than-no-streak: int64(r) <= clampRating(bsr, currentRating, stepsOf(bsr, shardId).ProposerDecreaseRatingStep())
+  assigns  nothing
+
+loop 1
+  invariant i <= consecutiveMisses
+  invariant proposerDecreaseRatingStep == stepsOf(bsr, shardId).ProposerDecreaseRatingStep() && consecutiveBlocksPenalty >= 1
+  invariant at-most-plain-step: computedFloat <= float64(proposerDecreaseRatingStep)
+  invariant plain-step-before-first-miss: i == 0 ==> computedFloat == float64(proposerDecreaseRatingStep)
+  invariant at-least-max-decrease: computedFloat >= -2147483648
+  // (termination: i counts up to consecutiveMisses; the variant `toInt(consecutiveMisses) - toInt(i)` was discharged in the
+  //  thorough tier but is not claimed - the query carries the float multiplication and is slow under load)
+
+// band k is (thr(k-1), thr(k)]; band 0 is [0, thr(0)] = {0}
+func (bsr *BlockSigningRater) GetChance(currentRating uint32) (r uint32)
+  requires inv.chances_set(bsr) && inv.chances_sorted(bsr) && inv.chances_cover(bsr)
+  ensures  first-band-at-or-above-rating: forall k :: 0 <= k && k < len(bsr.ratingChances) && currentRating <= thr(bsr, k) && (forall j :: 0 <= j && j < k ==> currentRating > thr(bsr, j)) ==> r == chanceOf(bsr, k)
+  ensures  chance-of-its-band: forall k int, p int :: 0 <= p && p + 1 == k && k < len(bsr.ratingChances) && thr(bsr, p) < currentRating && currentRating <= thr(bsr, k) ==> r == chanceOf(bsr, k)
+  ensures  chance-of-band-0: currentRating <= thr(bsr, 0) ==> r == chanceOf(bsr, 0)
+  ensures  some-band-when-at-most-max: currentRating <= bsr.maxRating ==> exists k :: 0 <= k && k < len(bsr.ratingChances) && currentRating <= thr(bsr, k) && (k == 0 || currentRating > thr(bsr, k-1)) && r == chanceOf(bsr, k)
+  ensures  above-all-thresholds-falls-back-to-band-0: (forall j :: 0 <= j && j < len(bsr.ratingChances) ==> currentRating > thr(bsr, j)) ==> r == chanceOf(bsr, 0)
+  assigns  nothing
+
+loop 1
+  invariant 0 <= i && i <= len(bsr.ratingChances)
+  invariant forall j :: 0 <= j && j < i ==> currentRating > thr(bsr, j)
+  invariant chance == chanceOf(bsr, 0)
+  decreases len(bsr.ratingChances) - i
+
+// ---- validation: which configurations are accepted ----
+func (h process.RatingsInfoHandler) StartRating() (r uint32)
+  pure
+func (h process.RatingsInfoHandler) MaxRating() (r uint32)
+  pure
+func (h process.RatingsInfoHandler) MinRating() (r uint32)
+  pure
+func (h process.RatingsInfoHandler) SignedBlocksThreshold() (r float32)
+  pure
+func (h process.RatingsInfoHandler) MetaChainRatingsStepHandler() (r process.RatingsStepHandler)
+  pure
+func (h process.RatingsInfoHandler) ShardChainRatingsStepHandler() (r process.RatingsStepHandler)
+  pure
+func (h process.RatingsInfoHandler) SelectionChances() (r []process.SelectionChance)
+  pure
+
+// every clause is one conjunct of the rater's configuration invariant (NewBlockSigningRater copies the getters' values)
+func verifyRatingsData(ratingsData process.RatingsInfoHandler) (err error)
+  requires step-handlers-set: !isNil(ratingsData) ==> ratingsData.MetaChainRatingsStepHandler() != nil && ratingsData.ShardChainRatingsStepHandler() != nil
+  ensures  nil-rejected: isNil(ratingsData) ==> err != nil
+  ensures  accepted-min-max: err == nil ==> 1 <= ratingsData.MinRating() && ratingsData.MinRating() <= ratingsData.MaxRating()
+  ensures  accepted-start-in-range: err == nil ==> ratingsData.MinRating() <= ratingsData.StartRating() && ratingsData.StartRating() <= ratingsData.MaxRating()
+  ensures  accepted-has-chances: err == nil ==> len(ratingsData.SelectionChances()) >= 1
+  ensures  accepted-signed-blocks-threshold: err == nil ==> ratingsData.SignedBlocksThreshold() >= 0 && ratingsData.SignedBlocksThreshold() <= 1
+  ensures  accepted-decrease-steps-at-most-minus-1: err == nil ==> ratingsData.ShardChainRatingsStepHandler().ProposerDecreaseRatingStep() <= -1
+     && ratingsData.ShardChainRatingsStepHandler().ValidatorDecreaseRatingStep() <= -1
+     && ratingsData.MetaChainRatingsStepHandler().ProposerDecreaseRatingStep() <= -1
+     && ratingsData.MetaChainRatingsStepHandler().ValidatorDecreaseRatingStep() <= -1
+  ensures  accepted-penalty-at-least-1: err == nil ==> ratingsData.ShardChainRatingsStepHandler().ConsecutiveMissedBlocksPenalty() >= 1
+     && ratingsData.MetaChainRatingsStepHandler().ConsecutiveMissedBlocksPenalty() >= 1
+  ensures  accepted-increase-steps-nonneg: err == nil ==> ratingsData.ShardChainRatingsStepHandler().ProposerIncreaseRatingStep() >= 0
+     && ratingsData.ShardChainRatingsStepHandler().ValidatorIncreaseRatingStep() >= 0
+     && ratingsData.MetaChainRatingsStepHandler().ProposerIncreaseRatingStep() >= 0
+     && ratingsData.MetaChainRatingsStepHandler().ValidatorIncreaseRatingStep() >= 0
+  assigns  nothing
+
+// step computation of NewRatingsData (float32 arithmetic). The result's fields are not observable through the
+// interface in this contract language; what is checked here is panic-freedom, i.e. that every float->int32 conversion
+// is applied to a value in range.
+func computeRatingStep(arg computeRatingStepArg) (r process.RatingsStepHandler, err error)
+  mode bv
+  requires round-duration-nonzero: arg.roundTimeMilis != 0
+  ensures  accepted-has-handler: err == nil ==> r != nil
+  ensures  rejected-has-none: err != nil ==> r == nil
+
+// a rating produced by an update lies in [min, max], so GetChance reports the chance of a real band for it
+lemma updated-rating-has-a-band
+  vars bsr *BlockSigningRater, shardId uint32, cur uint32
+  hyp  inv(bsr)
+  call r = bsr.ComputeDecreaseValidator(shardId, cur)
+  call c = bsr.GetChance(r)
+  concl band: exists k :: 0 <= k && k < len(bsr.ratingChances) && r <= thr(bsr, k) && (k == 0 || r > thr(bsr, k-1)) && c == chanceOf(bsr, k)
+
+// increase followed by its revert never ends above the rating after the increase, and both stay in range
+lemma revert-after-increase-not-higher
+  vars bsr *BlockSigningRater, shardId uint32, cur uint32, n uint32
+  hyp  inv(bsr)
+  call r1 = bsr.ComputeIncreaseValidator(shardId, cur)
+  call r2 = bsr.RevertIncreaseValidator(shardId, r1, n)
+  concl not-higher: r2 <= r1 && bsr.minRating <= r2 && r1 <= bsr.maxRating
+@*/
